@@ -52,7 +52,11 @@ func (f *frame) freshResult(t types.Type, st *State, prefix string) Val {
 }
 
 func (f *frame) execCall(v ssa.Value, cm *ssa.CallCommon, pos token.Pos, st *State, b *ssa.BasicBlock) {
+	pre := st.next
 	res := f.doCall(cm, pos, st, b, v)
+	if st.next != pre {
+		f.assumeCallAllocs(st, pre, st.next, f.calleeAllocs(cm))
+	}
 	if v != nil {
 		if res.Typ == nil {
 			res.Typ = v.Type()
@@ -96,6 +100,23 @@ func (f *frame) doCall(cm *ssa.CallCommon, pos token.Pos, st *State, b *ssa.Basi
 	var args []Val
 	for _, a := range cm.Args {
 		args = append(args, f.val(a))
+	}
+	if !inRepo(callee) {
+		// a function literal handed to a library function (regexp.ReplaceAllStringFunc, sort.Slice, ...) may be
+		// called by it any number of times: everything the literal (transitively) may write is havocked
+		for _, a := range args {
+			if a.Fn == nil {
+				continue
+			}
+			ws := g.WriteSetOf(a.Fn)
+			if ws.Top {
+				f.havocAll(st)
+			} else {
+				f.havocHeaps(st, ws.Sorted())
+			}
+			f.havocNext(st)
+			c.assumed["a function literal passed to a library function is called only during that call (zero or more times); its inferred write set is havocked at the call, its body is not checked for panics"] = true
+		}
 	}
 	if ext, ok := externals[callee.String()]; ok {
 		return ext(f, cm, args, st, name, resT, pos)
@@ -270,6 +291,10 @@ func (f *frame) applyContract(callee *ssa.Function, con *Contract, args []Val, s
 			}
 			m0 := e0.Eval(con.Decreases.Expr).Term
 			c.oblige(st, f.path, "decr-rec", fmt.Sprintf("(and (>= %s 0) (< %s %s))", m0, mCall, m0), "recursive call decreases "+con.Decreases.Text, pos)
+		} else if con.Partial {
+			// "partial": the contract is a partial-correctness statement (frame, safety, postconditions of the
+			// calls that return); termination of the recursion is explicitly not claimed and is reported
+			c.assumed["partial correctness only: termination of the self-recursive "+con.FullKey()+" is not shown (contract marked partial)"] = true
 		} else {
 			c.oblige(st, f.path, "decr-rec", "false", "recursive call without a decreases measure (termination not shown)", pos)
 		}
@@ -324,6 +349,18 @@ func (f *frame) applyContract(callee *ssa.Function, con *Contract, args []Val, s
 	}
 	if con.Trusted {
 		c.assumed["trusted contract "+con.FullKey()] = true
+	}
+	if clausesMentionDeepcopy(con.Ensures) {
+		// only facts about recursive types need the frame rule: look for one in the assumed postconditions
+		rec := false
+		for _, en := range con.Ensures {
+			if mentionsCall(en.Expr, "deepcopy", "deepcopyAbove") && c.mentionsRecursiveDcs(env2.Eval(en.Expr).Term) {
+				rec = true
+			}
+		}
+		if rec {
+			c.recordSnap(st)
+		}
 	}
 	return res
 }
@@ -389,7 +426,14 @@ func (f *frame) appendHeaps(st *State, et types.Type, s, t string, inplace strin
 		inpl := fmt.Sprintf("(ite (and ((_ is elem) r) (= (earr r) (sarr %s)) (<= (+ (soff %s) (slen %s)) (eidx r)) (< (eidx r) (+ (soff %s) (slen %s) %s))) %s (select %s r))", s, s, s, s, s, n, srcT, cur)
 		srcS := fmt.Sprintf("(select %s (selem %s (eidx r)))", cur, s)
 		srcT2 := fmt.Sprintf("(select %s (selem %s (- (eidx r) (slen %s))))", cur, t, s)
-		fresh := fmt.Sprintf("(ite (and ((_ is elem) r) (= (earr r) %s) (<= 0 (eidx r)) (< (eidx r) (slen %s))) %s (ite (and ((_ is elem) r) (= (earr r) %s) (<= (slen %s) (eidx r)) (< (eidx r) (+ (slen %s) %s))) %s (select %s r)))", newArr, s, srcS, newArr, s, s, n, srcT2, cur)
+		// a new backing array: the copied cells, the appended cells, and zero everywhere else (Go zeroes the
+		// spare capacity; cells beyond the capacity do not exist)
+		zero := c.g.heapZero(h)
+		rest := fmt.Sprintf("(select %s r)", cur)
+		if zero != "" {
+			rest = fmt.Sprintf("(ite (and ((_ is elem) r) (= (earr r) %s)) %s (select %s r))", newArr, zero, cur)
+		}
+		fresh := fmt.Sprintf("(ite (and ((_ is elem) r) (= (earr r) %s) (<= 0 (eidx r)) (< (eidx r) (slen %s))) %s (ite (and ((_ is elem) r) (= (earr r) %s) (<= (slen %s) (eidx r)) (< (eidx r) (+ (slen %s) %s))) %s %s))", newArr, s, srcS, newArr, s, s, n, srcT2, rest)
 		c.assume(st, fmt.Sprintf("(forall ((r Ref)) (! (= (select %s r) (ite %s %s %s)) :pattern ((select %s r))))", nh, inplace, inpl, fresh, nh))
 		st.heaps[h] = nh
 	}
@@ -417,6 +461,7 @@ func (f *frame) doAppend(cm *ssa.CallCommon, pos token.Pos, st *State, name stri
 	res := c.define(name, SSlice, fmt.Sprintf("(ite %s (mkslice (sarr %s) (soff %s) (+ (slen %s) %s) (scap %s)) (mkslice %s 0 (+ (slen %s) %s) %s))", inplace, s.T, s.T, s.T, n, s.T, id, s.T, n, ncap))
 	// Go: append(nil, <empty>) returns nil; our model returns a non-nil empty slice in that case only
 	// when cap is exceeded, which cannot happen for n = 0 (0 <= cap). Fine.
+	f.tagAlloc(st, id, et)
 	f.appendHeaps(st, et, s.T, t.T, inplace, id)
 	return Val{T: res, Typ: slT}
 }
